@@ -4,8 +4,15 @@
 // final segment that may also be a catch-all {*w} / {*v}; registrations = pattern x method
 // {GET, POST}; wildcard values from a menu of strings chosen for what percent-encoding does to
 // them (plain, space, bare %, %41, %2F, %zz, 100%, a/b, +, non-ASCII, empty and multi-segment
-// for catch-alls); middlewares registered through Use {none, asking ResolvePattern before next,
-// asking it after next}, and Use called after Handle.
+// for catch-alls); observers: the handler, and a middleware registered through Use {none, asking
+// ResolvePattern and Vars BEFORE next = before the request is routed, asking them after next},
+// and Use called after Handle.
+//
+// Second universe (litUniverse) for what the first keeps trivial: literal segments a URL
+// carries escaped {a, é, "a b"}, patterns of 1-2 segments over them + {x}/{y}/{*w}, every pair
+// of patterns (so every pair where one is more general), and the client's spelling of each
+// value {min = url.PathEscape: RawPath stays empty unless there is a slash; all = every byte
+// as %XX: RawPath set}, chosen per wildcard; value menu + the look-alike %C3%A9 of a literal.
 //
 // Bound: all legal pattern sets of size 1 and 2 over the full alphabet, size 3 over a reduced
 // alphabet (quick) / the middle alphabet (thorough), sizes 4-6 over the reduced alphabet
@@ -22,7 +29,10 @@
 // pattern that matches the path as sent under the reference segment-wise matcher (ref.go); it
 // is invoked once; Muxer.Vars holds exactly the declared names with the text the client placed
 // there, percent-decoded once; ResolvePattern, asked in a middleware or in the handler, is the
-// registered pattern string; when no registration of any method matches under any reading the
+// registered pattern string; an observer placed before routing is told the same pattern and the
+// same values as the handler the request is then dispatched to (= the registered pattern and
+// the original values); a literal segment matches the spelling a URL carries it in
+// (url.PathEscape of the literal); when no registration of any method matches under any reading the
 // answer is 404 with a body that decodes, per its Content-Type, into an ErrorResponse with a
 // non-empty name (requests answered 404 are repeated with Accept json/xml/gob/text/plain/
 // text/html; for the text types only "body not empty" is required). Which of several matching
@@ -61,6 +71,10 @@ type collector struct {
 	mu       sync.Mutex
 	sigs     map[string]*agg
 	outcomes map[string]int64
+	// requests dispatched to a strictly matching handler for which the answers given to an
+	// observer placed before routing (mode pre) were compared with the handler's and the
+	// reference, split by whether the parsed URL had a RawPath
+	preCompared [2]int64
 }
 
 func newCollector() *collector {
@@ -96,6 +110,8 @@ func (k *collector) merge(l *collector) {
 	for o, n := range l.outcomes {
 		k.outcomes[o] += n
 	}
+	k.preCompared[0] += l.preCompared[0]
+	k.preCompared[1] += l.preCompared[1]
 }
 
 // timing prints phase wall times to stderr when C16_TIMING is set (diagnostics only, never
@@ -191,6 +207,7 @@ func (u *universe) runPhase(c *core.Ctx, coll *collector, ph phase) {
 		local := newCollector()
 		scr := newScratch()
 		var execs int64
+		label := map[string]string{} // outcome classes of a named universe carry its name
 		for si := ci * chunk; si < len(ph.sets) && si < (ci+1)*chunk; si++ {
 			E := ph.sets[si]
 			nontrivial := false
@@ -212,8 +229,23 @@ func (u *universe) runPhase(c *core.Ctx, coll *collector, ph phase) {
 							execs++
 							pos++
 							fails, outcome := u.judge(E, mode, mi, ui, res)
+							if mode == mwPre && strings.HasPrefix(outcome, "dispatched") {
+								if uc.RawPathSet {
+									local.preCompared[1]++
+								} else {
+									local.preCompared[0]++
+								}
+							}
 							if useAfter {
 								outcome = "use-after-handle: " + outcome
+							}
+							if u.name != "" {
+								l, ok := label[outcome]
+								if !ok {
+									l = u.name + ": " + outcome
+									label[outcome] = l
+								}
+								outcome = l
 							}
 							local.outcomes[outcome]++
 							if ai == 0 && ph.accept && uc.Probe && strings.HasPrefix(outcome, "notfound") {
@@ -260,10 +292,37 @@ func (u *universe) runPhase(c *core.Ctx, coll *collector, ph phase) {
 		smu.Unlock()
 		coll.merge(local)
 	})
-	c.Note("phase "+ph.name, map[string]any{"sets": len(ph.sets), "requests": totalExec, "use_after_handle_panics": totalUse})
+	c.Note("phase "+ph.name, map[string]any{"sets": len(ph.sets), "requests": totalExec, "use_after_handle_panics": totalUse, "middleware_modes": modeNames(ph.modes)})
 	if skipped > 0 {
 		c.Incomplete(fmt.Sprintf("phase %s: deadline reached, %d of %d chunks (of %d sets each) not explored", ph.name, skipped, nchunks, chunk))
 	}
+}
+
+func modeNames(ms []mwMode) []string {
+	var out []string
+	for _, m := range ms {
+		out = append(out, mwNames[m])
+	}
+	return out
+}
+
+// ownPlusProbe lists the URLs a set is asked with when not all URLs of the universe are used:
+// every URL built from one of its own patterns with the full menus, and every probe URL.
+func (u *universe) ownPlusProbe(E []element) []int {
+	seen := make(map[int]struct{}, 64)
+	out := append([]int{}, u.probe...)
+	for _, i := range u.probe {
+		seen[i] = struct{}{}
+	}
+	for _, e := range E {
+		for _, i := range u.own[e.Pat] {
+			if _, ok := seen[i]; !ok {
+				seen[i] = struct{}{}
+				out = append(out, i)
+			}
+		}
+	}
+	return out
 }
 
 // ---------------------------------------------------------------- real server pass
@@ -315,6 +374,9 @@ func (u *universe) serverPhase(c *core.Ctx, coll *collector, ph phase) {
 						execs++
 						pos++
 						fails, outcome := u.judge(E, mode, mi, ui, res)
+						if u.name != "" {
+							outcome = u.name + ": " + outcome
+						}
 						local.outcomes["real-server: "+outcome]++
 						if ai == 0 && ph.accept && uc.Probe && strings.HasPrefix(outcome, "notfound") {
 							nacc = len(accepts)
@@ -471,7 +533,7 @@ func runCase(cd caseDesc) ([]failure, string, error) {
 	for pi := range u.pats {
 		ok, _ := match(&u.pats[pi], uc.RawSegs, false)
 		u.strict[pi] = []bool{ok}
-		u.lenient[pi] = []bool{ok || lenientMatch(&u.pats[pi], uc.RawSegs, uc.DecSegs)}
+		u.lenient[pi] = []bool{ok || lenientMatch(&u.pats[pi], uc.RawSegs, uc.DecRaw, uc.DecSegs)}
 	}
 	m, pan := u.buildMux(E, mode, cd.UseAfter)
 	if pan != "" {
@@ -495,6 +557,54 @@ func runCase(cd caseDesc) ([]failure, string, error) {
 	return fails, fmt.Sprintf("%s status=%d content-type=%q Path=%q RawPath=%q observed=%s body=%q", outcome, res.status, res.ct, uc.Path, uc.RawPath, obsJSON, string(res.body)), nil
 }
 
+// ---------------------------------------------------------------- literal / encoding universe
+
+// litUniverse builds the second universe. It exists for three dimensions the main universe
+// keeps trivial, and every request of it is also asked with an observer BEFORE routing:
+//
+//   - literal segments that a URL carries escaped: "é" (%C3%A9) and "a b" (a%20b) next to the
+//     plain "a". Literals containing "%" are left out: whether a pattern's own text is itself
+//     to be read as escaped is not something the statement settles.
+//   - the client's spelling of a value: minimal (url.PathEscape; RawPath stays empty unless the
+//     value has a slash) or every byte escaped (RawPath always set), chosen per wildcard, so a
+//     URL may mix both.
+//   - every pair of patterns, which contains every pair where one pattern is more general
+//     than the other (/é/{y} and /{x}/{y}, /a b/{*w} and /{*w}, ...).
+func litUniverse(c *core.Ctx) (*universe, alphabet) {
+	defer timing("literal-encoding universe")()
+	nonFinal := []seg{litA, litE, litSp, parX}
+	final := []seg{litA, litE, litSp, parY, catchW}
+	lu, err := newUniverse(genPatterns(nonFinal, final, 2), menus{name: "literal-encoding", single: singleLit, catch: catchLit,
+		singleProb: singleProbLit, catchProb: catchProbLit, encoders: encAll, foreign: []string{"/c", "/a/c", "/%C3%A9/c", "/c/c/c"}})
+	if err != nil {
+		c.HarnessError("building the literal-encoding URL universe: %v", err)
+		return nil, alphabet{}
+	}
+	a := lu.alphabet("literal-encoding", nonFinal, final, 2)
+	var nSet, nEmptyEsc int
+	for _, uc := range lu.urls {
+		if uc.RawPathSet {
+			nSet++
+		} else if uc.Raw != uc.Path {
+			nEmptyEsc++
+		}
+	}
+	var pats []string
+	for _, pi := range a.pats {
+		pats = append(pats, lu.pats[pi].Str)
+	}
+	c.Note("alphabet literal-encoding", map[string]any{
+		"literal_segments": []string{"a", "é (sent as %C3%A9)", "a b (sent as a%20b)"}, "patterns": pats, "methods": methods,
+		"single_values": singleLit, "catchall_values": catchLit, "value_encoders": map[string]string{
+			"min": "url.PathEscape: RawPath empty unless the value contains a slash", "all": "every byte as %XX: RawPath set for every non-empty value"},
+		"probe_single_values": singleProbLit, "probe_catchall_values": catchProbLit,
+		"observers": []string{"handler", "middleware before next (before routing): ResolvePattern + Vars", "middleware after next: ResolvePattern + Vars"},
+		"urls":      len(lu.urls), "urls_probe": len(lu.probe), "urls_with_rawpath_set": nSet, "urls_rawpath_empty_but_escaped": nEmptyEsc,
+		"urls_rawpath_empty_plain": len(lu.urls) - nSet - nEmptyEsc,
+	})
+	return lu, a
+}
+
 // ---------------------------------------------------------------- run
 
 func run(c *core.Ctx) {
@@ -506,10 +616,14 @@ func run(c *core.Ctx) {
 	}
 	c.Rule("a state is one legal set of registrations (method x pattern); a transition is one request (method x path built by substituting " +
 		"url.PathEscape'd menu values into a pattern of the universe, parsed by net/http's request parser) served by the real goa Muxer built for that set " +
-		"under one middleware mode {none, ResolvePattern before next, ResolvePattern after next}; sets of each size are complete over the stated alphabet " +
+		"under one middleware mode {none, ResolvePattern+Vars asked before next (= before routing), ResolvePattern+Vars asked after next}; what the middleware is told is compared with " +
+		"what the handler is told and with the registered pattern / original values; sets of each size are complete over the stated alphabet " +
 		"(legal = no two registrations of one method identical after wildcard-name erasure); non-trivial = the set contains a wildcard pattern")
 	c.Assume("net/http's http.ReadRequest / real http.Server and url.PathEscape are trusted: they define what the client placed on the wire and what Path/RawPath a server sees")
-	c.Assume("literal segments are sent unescaped; a raw segment equal to a literal matches it, and matches a {name} wildcard as well (which of several matching patterns wins is not asserted)")
+	c.Assume("a literal segment is sent the way a URL carries it (url.PathEscape of the literal: a -> a, é -> %C3%A9, 'a b' -> a%20b); a raw segment equal to that spelling matches the literal, " +
+		"and matches a {name} wildcard as well (which of several matching patterns wins is not asserted); any other spelling of a literal (raw UTF-8, lower-case hex, over-escaped) is an open reading, not asserted; " +
+		"literals containing % are not in the alphabet (whether a pattern's own text is to be read as escaped is not settled by the statement)")
+	c.Assume("the client's spelling of a value is one of two encoders per wildcard: url.PathEscape (minimal; the parsed URL has no RawPath unless the value has a slash) or every byte as %XX (RawPath always set); both decode to the same text")
 	c.Assume("readings the statement leaves open are not asserted: trailing slash added/removed, an escaped slash read as separator, empty single-segment capture, " +
 		"catch-all without its separating slash, status of a request whose path matches only registrations of another method")
 	c.Assume("Use called after the first Handle panics inside chi (\"all middlewares must be defined before routes\"); the statement does not say Use must be accepted then, so this is recorded as an outcome, not a violation")
@@ -517,7 +631,8 @@ func run(c *core.Ctx) {
 
 	stop := timing("universe")
 	full := genPatterns([]seg{litA, litB, parX, parY}, []seg{litA, litB, parX, parY, catchW, catchV}, 3)
-	u, err := newUniverse(full)
+	u, err := newUniverse(full, menus{single: singleFull, catch: catchFull, singleProb: singleProb, catchProb: catchProb, encoders: encMin,
+		foreign: []string{"/c", "/a/c", "/c/c/c/c", "/a/b/a/b/a/b"}})
 	if err != nil {
 		c.HarnessError("building the URL universe: %v", err)
 		return
@@ -543,28 +658,13 @@ func run(c *core.Ctx) {
 	for i := range allURLs {
 		allURLs[i] = i
 	}
-	ownPlusProbe := func(E []element) []int {
-		seen := make(map[int]struct{}, 64)
-		out := append([]int{}, u.probe...)
-		for _, i := range u.probe {
-			seen[i] = struct{}{}
-		}
-		for _, e := range E {
-			for _, i := range u.own[e.Pat] {
-				if _, ok := seen[i]; !ok {
-					seen[i] = struct{}{}
-					out = append(out, i)
-				}
-			}
-		}
-		return out
-	}
+	ownPlusProbe := u.ownPlusProbe
 	// probe URLs of a sub-alphabet: built from its patterns with the probe menus, plus paths
 	// that only other literals / longer paths produce
 	probeOf := func(a alphabet) []int {
 		seen := map[int]bool{}
 		for _, pi := range a.pats {
-			buildPaths(pi, &u.pats[pi], singleProb, catchProb, func(raw string, _ build) { seen[u.byRaw[raw]] = true })
+			buildPaths(pi, &u.pats[pi], singleProb, catchProb, encMin, func(raw string, _ build) { seen[u.byRaw[raw]] = true })
 		}
 		for _, raw := range []string{"/b", "/a/b", "/b/a", "/a/a/b", "/c", "/a/c", "/c/c/c/c", "/a/b/a/b/a/b"} {
 			seen[u.byRaw[raw]] = true
@@ -610,6 +710,49 @@ func run(c *core.Ctx) {
 			"(own URLs with full menus + probe URLs), middleware modes none and ResolvePattern-before-next; size 3 complete over the reduced alphabet x the middle alphabet's probe URLs; "+
 			"real httptest.Server+http.Client pass over the size-1 sets of the reduced alphabet")
 	}
+
+	// ---- second universe: observers placed before routing x literal segments that a URL
+	// carries escaped x how the client spells the values (see litUniverse)
+	lu, aLit := litUniverse(c)
+	if lu == nil {
+		return
+	}
+	lsets := func(k int) [][]element {
+		s, illegal := lu.legalSets(aLit, k)
+		c.Note(fmt.Sprintf("sets size=%d alphabet=%s", k, aLit.name), map[string]int{"legal": len(s), "excluded_by_rule": illegal})
+		return s
+	}
+	lall := func([]element) []int {
+		out := make([]int, len(lu.urls))
+		for i := range out {
+			out[i] = i
+		}
+		return out
+	}
+	lu.runPhase(c, coll, phase{name: "literal-encoding size1 all-urls", sets: lsets(1), urls: lall, modes: modes, accept: true})
+	if c.Thorough() {
+		lu.runPhase(c, coll, phase{name: "literal-encoding size2 all-urls", sets: lsets(2), urls: lall, modes: modes})
+		lu.serverPhase(c, coll, phase{name: "real-server literal-encoding size1 own+probe-urls", sets: lsets(1), urls: lu.ownPlusProbe, modes: modes, accept: true})
+		c.Note("bounds literal-encoding", "sets of size 1 and 2 complete over the literal-encoding alphabet x every URL of its universe (complete product pattern x value menu x encoder per wildcard), "+
+			"three middleware modes; real httptest.Server+http.Client pass over all size-1 sets (own + probe URLs)")
+	} else {
+		lu.runPhase(c, coll, phase{name: "literal-encoding size2 own+probe-urls", sets: lsets(2), urls: lu.ownPlusProbe, modes: []mwMode{mwNone, mwPre}})
+		lu.serverPhase(c, coll, phase{name: "real-server literal-encoding size1 own+probe-urls", sets: lsets(1), urls: lu.ownPlusProbe, modes: []mwMode{mwPre}})
+		c.Note("bounds literal-encoding", "sets of size 1 complete over the literal-encoding alphabet x every URL of its universe, three middleware modes; size 2 complete (every pair, so every pair "+
+			"where one pattern is more general than the other) x (every URL built from the set's own patterns with the complete product value menu x encoder per wildcard + probe URLs), "+
+			"middleware modes none and pre (observer before routing); real httptest.Server+http.Client pass over all size-1 sets with the observer before routing")
+	}
+	// evidence sample: a literal the URL carries escaped next to a more general pattern, asked
+	// with the observer before routing, value spelled minimally (RawPath empty)
+	if pe, okE := lu.patIdx["/é/{y}"]; okE {
+		if pg, okG := lu.patIdx["/{x}/{y}"]; okG {
+			if ui, okU := lu.byRaw["/%C3%A9/a%20b"]; okU {
+				c.Sample(lu.describe([]element{{0, pe}, {0, pg}}, mwPre, 0, ui, 0, false))
+			}
+		}
+	}
+	c.Note("pre_routing_observer_comparisons", map[string]int64{
+		"requests_compared_rawpath_empty": coll.preCompared[0], "requests_compared_rawpath_set": coll.preCompared[1]})
 
 	// outcomes: exact counts as a note; the core's outcome table gets one tick per class
 	oc := map[string]int64{}
